@@ -198,6 +198,10 @@ check("C12", "compaction preserves content; deleted keys stay deleted", [
        "2..4 steps, writes on 1 of 2 keys, probe over both; database fresh or aged (both keys already in level 2)", "2..5 steps, writes on both keys", q={"budget_s": 500}, t={"budget_s": 1200}),
     ob("VerifC12_RangeCompaction", "pkg/engine", "an older generation of a symbolic subset of 3 keys sits 1 (thorough 1-2) levels down; a newer generation (1-2 puts/deletes) is flushed into one level-0 table; CompactRange over a symbolic key range [lo,hi] (thorough: 1-2 such rounds): every key reads as its latest write says in the running engine and after the logs are retired and the database is reopened on the tables alone",
        "7 subsets x 42 write shapes x 6 ranges, 1 round, depth 1", "depth 1-2, 1-2 rounds", q={"budget_s": 500}, t={"budget_s": 1500}),
+    ob("VerifC12_CyclesPreserveView", "pkg/compaction", "one compaction coordinator through several cycles; before each cycle two new level-0 tables (put/delete of one of two keys each) are written with the real writer; after each cycle the directory's merged newest-wins view equals the view before it and the latest write of every key; every table sorted without duplicate keys (later cycles meet earlier outputs and whatever the coordinator/strategy keep between cycles)",
+       "3 cycles x 9 table shapes (729 programs), 2 keys", "4 cycles", q={"budget_s": 500}, t={"budget_s": 1500}),
+    ob("VerifC12_RepeatedCompactions", "pkg/engine", "several compaction cycles in one engine lifetime (level-0 trigger 2): each round flushes two level-0 tables (both keys / two versions of the first / two versions of the second; puts and deletes) and triggers a compaction, so later cycles meet the outputs of earlier ones and whatever the compaction code keeps from cycle to cycle; optional restart on the tables alone after one round; after every round and after a final retire-logs+reopen every key reads as its latest write says",
+       "3 rounds x 6 shapes, restart after round 0..2 (648 programs), 2 keys", "4 rounds", q={"budget_s": 500}, t={"budget_s": 1500}),
     ob("VerifC12_CrashDuringCompaction", "pkg/engine", "2 (thorough 2-3) flushed level-0 tables with successive versions of a key (value / overwrite / delete) and a second key; the process dies at any file-system step of a triggered compaction cycle (both crash models); logs retired; reopened on whatever table files the crash left: every key reads as its latest write says",
        "2 tables, every crash point of the cycle, every iteration order of the maps kevo's compaction code walks (input files by level, obsolete files: 2-3 entries, all permutations)", "2-3 tables", q={"budget_s": 600, "map_orders": True}, t={"budget_s": 1500, "map_orders": True}),
 ], [SIMFS, CLOCK, HASH, BLOOM, JSON, LOG, TIERA], ["more than 3 levels", "size-ratio triggered compactions between deep levels (selectOverlappingCompaction)", "more than 3 input files in the directory-level harness", "the tombstone tracker's time-based retention (the clock does not advance 24 h in any harness)"])
